@@ -166,8 +166,13 @@ def _worker(sch, t, items, fwd):
                     fwd.time(time_of(it.get("en") or d + 2))
                     try:
                         getattr(fwd, it["out"])(test, details={})
-                    finally:
-                        fwd.stopTest(test)
+                    except TargetFault:
+                        # a reporter like unittest calls stopTest in a `finally`; one like PlaceHolder.run does not
+                        # (item flag "nostop"): the forwarder must not depend on it to forget this test's buffers
+                        if not it.get("nostop"):
+                            fwd.stopTest(test)
+                        raise
+                    fwd.stopTest(test)
                 elif it["kind"] == "shouldStop":
                     fwd.shouldStop
                 else:
@@ -330,7 +335,7 @@ def restrict_to_domain(work, faults):
 def calibrate_variant():
     """Which buffer-reset behaviour does the tree under test implement?  One sequential execution: the target raises
     at startTest of a test tagged {x}; does the next test's block carry x?"""
-    work = [[T("addSuccess", None, add("x")), T("addSuccess", None, None)]]
+    work = [[dict(T("addSuccess", None, add("x")), nostop=True), T("addSuccess", None, None)]]
     trace, dl, ex = run_scenario(work, [(1, 2)], S.Follow([], "first"))
     if dl is not None:
         return "asCoded"
@@ -383,6 +388,9 @@ def systematic_scenarios(tier):
     slow, fast = T("addSuccess", None, add("slow")), T("addSuccess", None, add("fast"))
     for k in range(1, 7):
         sc.append(([[slow, fast], [plain]], [(1, k)], 2))
+    # ... reported by a thread that does not call stopTest once the outcome has raised (like PlaceHolder.run)
+    for k in range(1, 7):
+        sc.append(([[dict(slow, nostop=True), fast], [plain]], [(1, k)], 1))
     for k in range(1, 8):
         sc.append(([[tagged, fast, slow]], [(1, k)], 1))
     # explicit times from a tiny alphabet: back-to-back tests whose start time equals the previous test's end time
@@ -433,6 +441,10 @@ def random_scenario(rng):
                     it["st"] = cur
                     it["en"] = cur + rng.choice((0, 0, 1))
                     cur = it["en"] + rng.choice((0, 0, 1))
+    if rng.random() < 0.3:
+        for items in work:
+            for it in items:
+                it["nostop"] = True
     faults = []
     r = rng.random()
     nf = 0 if r < 0.4 else (1 if r < 0.8 else 2)
